@@ -97,6 +97,20 @@ def nd_reachable(facts, cg, roots):
     for name, callers in ext.items():
         if any(x in name for x in ND_SOURCES):
             hits.append((name, sorted(callers)[:3]))
+    # parallel reductions whose result depends on how rayon splits the work: a float sum / product (floating-point addition is
+    # not associative), a reduction or fold with an arbitrary operator, find_any
+    for k in cg.reachable(roots):
+        b = facts.bodies[k]
+        for bi, t in b.calls():
+            fc = t['func']
+            if not (fc.get('trait') or '').endswith('ParallelIterator'):
+                continue
+            m = (fc.get('fn') or '').rsplit('::', 1)[-1]
+            dty = t['dest'].get('ty', '')
+            if (m in ('sum', 'product') and ('f64' in dty or 'f32' in dty)) or \
+                    m in ('reduce', 'reduce_with', 'fold', 'fold_with', 'try_fold', 'try_reduce', 'find_any', 'find_map_any'):
+                hits.append(('ParallelIterator::%s -> %s in %s (the result depends on the order in which rayon combines the pieces)'
+                             % (m, dty[:40], k), [k]))
     # HashMap/HashSet typed locals in reachable bodies
     for k in cg.reachable(roots):
         b = facts.bodies[k]
@@ -114,6 +128,8 @@ def clone_problems(facts, body):
     if len(outs) != 1 or sx.aborted:
         return ['clone is not a single loop-free path']
     r = sx.deep(outs[0].st, outs[0].ret)
+    if r == SYM('self'):
+        return []           # `*self` (the derived Clone of a Copy type): a bitwise copy
     if r[0] != 'struct':
         return ['clone does not return a struct literal']
     probs = []
@@ -191,8 +207,8 @@ def run(ctx):
     # ---------------- R3 clone fidelity -------------------------------------------------
     n_manual = 0
     for b in f.trait_impl_methods('clone::Clone', 'clone'):
-        if b.derived or b.crate_kind != 'lib':
-            continue
+        if b.crate_kind != 'lib':
+            continue        # (derived impls are checked like hand-written ones: what matters is what the copy is made of)
         adt = f.norm(b.impl_self_adt or '')
         if adt in ('cell::Cell2', 'site::OccupiedSite') or adt.startswith(('state::', 'basis::SharedValue', 'shape::', 'wallpaper::')):
             n_manual += 1
@@ -201,7 +217,7 @@ def run(ctx):
             rep.check(not probs, 'R3', 'clone-fidelity:%s' % adt, where(b), 'every field from the same-named field of self',
                       'the manual Clone of %s does not copy field-to-field: %s' % (adt, probs[:3]))
             rep.sample('%s::clone: field-to-field from self' % adt)
-    rep.floor('R3', 'manual Clone impls in the state type graph', n_manual, 2)
+    rep.floor('R3', 'Clone impls in the state type graph', n_manual, 2)
     clone_roots = [b.key_in_facts for b in f.trait_impl_methods('clone::Clone', 'clone') if b.crate_kind == 'lib']
     p = writes_cell_reachable(ctx, clone_roots)
     rep.check(p is None, 'R3', 'clone-never-writes-a-cell', 'all Clone impls', 'no Clone impl reaches SharedValue::set_value',
